@@ -68,8 +68,8 @@ class DataIndexView(BaseDataIndex):
                 self.children = children
                 self.value = args[0] if args else None
 
-            def build(self, stack):
-                if not self.key or not shallow:
+            def build(self, stack, descend=True):
+                if descend and (not self.key or not shallow):
                     for child in self.children:
                         stack.append(child)
                 return self.key, self.value
@@ -88,14 +88,19 @@ class DataIndexView(BaseDataIndex):
         while stack:
             node = stack.popleft()
             if node is not None:
-                key, value = node.build(stack)
+                # NOTE: a directory object is never entered through traverse().
+                # Its keys get loaded in place - by us, or by the consumer at any
+                # moment while we are suspended (e.g. by looking up a key below
+                # it, before or after it is yielded) - and traverse() hands out
+                # child iterators that do not see keys added after they were
+                # created. So its keys are always taken from the index itself.
+                dir_obj = bool(
+                    ensure_loaded and node.key and self._is_dir_object(node.value)
+                )
+                key, value = node.build(stack, descend=not dir_obj)
                 if key and value:
-                    # NOTE: decide before yielding, the consumer may load this
-                    # directory (e.g. by looking up a child) while we are
-                    # suspended, and its keys still have to be yielded.
-                    unloaded = ensure_loaded and self._is_unloaded_dir(value)
                     yield key, value
-                    if unloaded:
+                    if dir_obj:
                         yield from self._load_dir_keys(key, value, shallow=shallow)
 
     def _load_dir_keys(
@@ -114,13 +119,8 @@ class DataIndexView(BaseDataIndex):
                     yield key, val
 
     @staticmethod
-    def _is_unloaded_dir(entry: Optional[DataIndexEntry]) -> bool:
-        return bool(
-            entry is not None
-            and entry.hash_info
-            and entry.hash_info.isdir
-            and not entry.loaded
-        )
+    def _is_dir_object(entry: Optional[DataIndexEntry]) -> bool:
+        return bool(entry is not None and entry.hash_info and entry.hash_info.isdir)
 
     def iteritems(
         self,
